@@ -68,6 +68,10 @@ func classify(multiline bool, pattern, in string, on, off result) string {
 		if trieShape(re) {
 			return "prefilter:trie-prefix-joined-to-non-adjacent-literal"
 		}
+		if ci && len(lits) > 0 && isASCII(in) && in != strings.ToLower(in) && containsAll(strings.ToLower(in), lits) {
+			// every mandatory literal is there modulo ASCII case, yet the input was rejected
+			return "prefilter:ascii-case-fold-miss"
+		}
 		return "unclassified:false-negative:" + pattern
 	case !off.ok && on.ok:
 		if isExactLiteral(pattern) {
@@ -196,4 +200,13 @@ func trieShape(re *syntax.Regexp) bool {
 		}
 	}
 	return false
+}
+
+func isASCII(s string) bool {
+	for i := 0; i < len(s); i++ {
+		if s[i] >= 0x80 {
+			return false
+		}
+	}
+	return true
 }
